@@ -31,7 +31,11 @@ StrCases ==
                F("first", X), F("last", X)}}
 \* upper / lower / trim / capitalize: the property states idempotence only, so the check
 \* is the relation F(F(x)) = F(x) between two real renders (no reference value)
+\* (letters whose other case is encoded in fewer or more bytes: Kelvin sign -> k, U+023A <-> U+2C65, long s -> S, dotless i -> I)
+OddCaseAlphabet == {8490, 570, 11365, 383, 305, 97, 66, 32}
+OddStrs == UNION {[1..k -> OddCaseAlphabet] : k \in 1..3}
 IdemCases == {[fam |-> "idem", x |-> VS(s), e |-> F(f, X)] : s \in Strs(MaxStr), f \in {"upper", "lower", "trim", "capitalize"}}
+             \cup {[fam |-> "idem", x |-> VS(s), e |-> F(f, X)] : s \in OddStrs, f \in {"upper", "lower", "trim", "capitalize"}}
 \* reverse of a string: involution and length-preservation only (stated above); the value
 \* itself is compared for ASCII strings, where byte- and character-wise reversal agree
 RevCases == {[fam |-> "str", x |-> VS(s), e |-> F("reverse", X)] : s \in {t \in Strs(MaxStr) : \A i \in 1..Len(t) : t[i] < 128}}
@@ -107,7 +111,10 @@ NumKinds == {"i8", "i64", "u16", "u64", "f32", "def"}
 KindLists == {VL(<<VN(VI(3), k), VN(VI(20), k), VN(VI(1), k)>>) : k \in NumKinds}
              \cup {VLg(<<VI(3), VI(20), VI(1)>>, g) : g \in {"i64s", "f32s", "f64s", "ints"}} \cup {VL(<<VI(3), VI(20), VI(1)>>), VL(<<VI(3), VN(VI(20), "u16"), VN(VI(1), "i8")>>)}
 Zeros == {VI(0), VD(0, 0), VN(VD(0, 0), "def")} \cup {VN(VI(0), k) : k \in NumKinds}
-KindCases == {[fam |-> "kinds", what |-> w] : w \in {"sort", "zero", "zerocomputed"}}
+\* fractions that share their integer part, in lists of float element types
+FracList == <<VD(25, 1), VD(225, 2), VD(-5, 1), VD(75, 2), VD(-25, 2)>>
+FracLists == {VLg(FracList, g) : g \in {"f32s", "f64s"}} \cup {VL(FracList), VL([i \in 1..Len(FracList) |-> VN(FracList[i], "f32")])}
+KindCases == {[fam |-> "kinds", what |-> w] : w \in {"sort", "sortfrac", "zero", "zerocomputed"}}
 KindCaseOf(c) ==
     IF c.what = "sort" THEN
         [prop |-> "C19", key |-> ToJson(c), tags |-> {"fam:kinds", "f:sort"}, entry |-> "main", ctx |-> EmptyFn,
@@ -115,6 +122,13 @@ KindCaseOf(c) ==
                                                                      Text(<<124>>), PrintS(F("last", F("sort", X)))>>, LMin)),
                     xcalls |-> [id \in {} |-> 0], ctx |-> ("x" :> v)] : v \in KindLists},
          expect |-> [ok |-> TRUE, out |-> <<49, 44, 51, 44, 50, 48, 124, 49, 124, 50, 48>>, err |-> "", calls |-> [id \in {} |-> 0]]]
+    ELSE IF c.what = "sortfrac" THEN
+        [prop |-> "C19", key |-> ToJson(c), tags |-> {"fam:kinds", "f:sort"}, entry |-> "main", ctx |-> EmptyFn,
+         runs |-> {[label |-> ToJson(v), tp |-> ("main" :> Source(<<PrintS(FA("join", F("sort", X), <<LS(<<44>>)>>)), Text(<<124>>), PrintS(F("first", F("sort", X))),
+                                                                     Text(<<124>>), PrintS(F("last", F("sort", X)))>>, LMin)),
+                    xcalls |-> [id \in {} |-> 0], ctx |-> ("x" :> v)] : v \in FracLists},
+         \* -0.5,-0.25,0.75,2.25,2.5|-0.5|2.5
+         expect |-> [ok |-> TRUE, out |-> <<45, 48, 46, 53, 44, 45, 48, 46, 50, 53, 44, 48, 46, 55, 53, 44, 50, 46, 50, 53, 44, 50, 46, 53, 124, 45, 48, 46, 53, 124, 50, 46, 53>>, err |-> "", calls |-> [id \in {} |-> 0]]]
     ELSE
         [prop |-> "C19", key |-> ToJson(c), tags |-> {"fam:kinds", "f:default"}, entry |-> "main", ctx |-> EmptyFn, rel |-> "same",
          runs |-> IF c.what = "zero"
